@@ -676,6 +676,11 @@ class G(object):
         if self.p(0.3):
             self.features.add('docstring')
             self.emit(repr('Docstring of %s.' % name))
+        elif self.p(0.15):
+            # removable statements in front of a string statement that is not a docstring
+            self.features.add('string_stmt_after_removable')
+            self.emit(self.ch(['pass', 'assert True', 'if __debug__: pass', 'pass']))
+            self.emit(repr('Not a docstring of %s.' % name))
         self.sig_prologue(info)
         self.ind -= 1
         save = (self.in_func, self.in_loop, getattr(self, 'cur_ret', 'int'))
@@ -756,6 +761,10 @@ class G(object):
         attrs = []
         if self.p(0.3):
             self.emit(repr('Doc of class %s' % name))
+        elif self.p(0.15):
+            self.features.add('string_stmt_after_removable')
+            self.emit('pass')
+            self.emit(repr('Not the doc of class %s' % name))
         if self.p(0.2):
             self.emit("__slots__ = ('slot_one', 'slot_two')")
             slots = True
